@@ -77,7 +77,7 @@ var targets = []Target{
 	},
 	{
 		Name: "roles", Prop: "C13", Module: "GoRoles",
-		Title: "C13: dtlsrole.go connectionRoleFromDtlsRole (whole), the a=setup value switch of dtlsRoleFromSDP, dtlstransport.go DTLSTransport.role (field reads rewritten), and the connection-role statements of CreateAnswer.",
+		Title: "C13: dtlsrole.go connectionRoleFromDtlsRole (whole), the a=setup value switch of dtlsRoleFromSDP, dtlstransport.go DTLSTransport.role (field reads rewritten), the connection-role statements of CreateAnswer and the ICE-role statements of SetRemoteDescription.",
 		Items: []Item{
 			{Func: "connectionRoleFromDtlsRole"},
 			{
@@ -104,6 +104,16 @@ var targets = []Target{
 					{Expr: "pc.api.settingEngine.candidates.ICELite", Param: "localLite", Type: "bool"},
 				},
 				Params: []string{"answering", "offerRole", "remoteLite", "localLite"},
+			},
+			{
+				Func: "PeerConnection.SetRemoteDescription", Name: "SetRemoteDescription_iceRole",
+				Frag: &Frag{VarSlice: "iceRole"},
+				Rewrites: []Rewrite{
+					{Expr: "weOffer", Param: "weOffer", Type: "bool"},
+					{Expr: "remoteIsLite", Param: "remoteLite", Type: "bool"},
+					{Expr: "pc.api.settingEngine.candidates.ICELite", Param: "localLite", Type: "bool"},
+				},
+				Params: []string{"weOffer", "remoteLite", "localLite"},
 			},
 		},
 	},
